@@ -17,10 +17,13 @@
 (*                those pieces and the declared sample (first sentence of  *)
 (*                the property), whatever the orientation, flanks, spacers;*)
 (*   SymmetryThm  Demux(rc(read)) = Flip(Demux(read));                     *)
-(*   ScanThm      the primer-hit scan of the code (partner searched behind *)
-(*                the first direct hit only, state machine with `from`)    *)
-(*                finds the amplicons of the property-level reading        *)
-(*                (consecutive +i/-i hits among ALL hits);                 *)
+(*   InterleavedThm  interleaved sites +j +i -j -i delimit no barcode;     *)
+(*   ScanThm      the primer-hit scan (state machine 0/1 with `from`) over *)
+(*                all hits finds the pairs of consecutive +i/-i hits;      *)
+(*   ShortcutThm  looking for the partner primer only behind the first     *)
+(*                direct hit (the code as received) gives the same answer  *)
+(*                on reads made of complete amplicons - and not on reads   *)
+(*                with a further priming site, where it is strand-dependent*)
 (*   SafetyThm    every answer of the specification passes the safety      *)
 (*                predicate used on observed outputs, and the same answer  *)
 (*                with another declared sample does not;                   *)
@@ -30,7 +33,7 @@
 (***************************************************************************)
 EXTENDS Demux, Json, CSV, IOUtils
 
-CONSTANTS SheetIdx,     \* indexes (0..671) of the sheets of the run, see ParamOf
+CONSTANTS SheetIdx,     \* indexes (0..767) of the sheets of the run, see ParamOf
           NSeed,        \* number of further sheets drawn from IOEnv.VERIF_SEED
           ScanMod       \* ScanThm is evaluated on the sheets whose index is a multiple of ScanMod (it doubles the work)
 
@@ -65,17 +68,18 @@ TagDesign ==
      <<Smp(TX, TX, "s1"), Smp(TY, TY, "s2"), Smp(TZ, TZ, "s3")>>,      \* 4 length 3
      <<Smp(TA, Nt, "s1"), Smp(TB, Nt, "s2"), Smp(TC, Nt, "s3")>>,      \* 5 reverse primer untagged
      <<Smp(Nt, TA, "s1"), Smp(Nt, TB, "s2")>>,                         \* 6 forward primer untagged
-     <<Smp(TA, TX, "s1"), Smp(TB, TY, "s2"), Smp(TA, TY, "s3")>> >>    \* 7 lengths 4 and 3
+     <<Smp(TA, TX, "s1"), Smp(TB, TY, "s2"), Smp(TA, TY, "s3")>>,      \* 7 lengths 4 and 3
+     <<Smp(Nt, Nt, "s1")>> >>                                          \* 8 no tag at all: one sample per marker
 Design2 == <<Smp(TA, TA, "u1"), Smp(TC, TB, "u2")>>                    \* marker 2: its own table
 
 ModeTab   == <<"strict", "hamming", "indel">>
 SpacerTab == << <<0, 0>>, <<1, 1>>, <<1, 0>>, <<0, 1>> >>
 BudgetTab == << <<2, 2>>, <<1, 2>>, <<0, 1>>, <<0, 0>> >>
-NSheets   == 7 * 3 * 4 * 4 * 2
+NSheets   == 8 * 3 * 4 * 4 * 2
 
-ParamOf(i) == [td |-> (i % 7) + 1, mode |-> ModeTab[((i \div 7) % 3) + 1],
-               sp |-> SpacerTab[((i \div 21) % 4) + 1], bud |-> BudgetTab[((i \div 84) % 4) + 1],
-               indel |-> ((i \div 336) % 2) = 1]
+ParamOf(i) == [td |-> (i % 8) + 1, mode |-> ModeTab[((i \div 8) % 3) + 1],
+               sp |-> SpacerTab[((i \div 24) % 4) + 1], bud |-> BudgetTab[((i \div 96) % 4) + 1],
+               indel |-> ((i \div 384) % 2) = 1]
 
 Marker(pr, smp, mode, sf, sr, ef, er, ind) ==
   [fwd |-> pr.f, rev |-> pr.r, fP |-> AsPat(pr.f), rP |-> AsPat(pr.r), ef |-> ef, er |-> er, indel |-> ind,
@@ -148,7 +152,7 @@ Scen(sh) ==
               \cup {Scn("dimer", <<Plain(mk, 1, o, <<>>)>>, 2, 1) : mk \in {1, 2}, o \in {0, 1}}
               \cup {Scn("cross", <<[Plain(mk, 1, o, BC1) EXCEPT !.rmk = 3 - mk]>>, 2, 1) : mk \in {1, 2}, o \in {0, 1}}
               \cup {Scn("nosite", <<>>, 2, 1), Scn("nosite", <<Amp(1, 1, 0, {}, {}, NoEd, NoEd, "FR", BC2)>>, 2, 1)}
-      CA(mk, o) == Plain(mk, IF o = 0 THEN 1 ELSE 2, o, IF o = 0 THEN BC1 ELSE BC2)
+      CA(mk, o) == Plain(mk, IF o = 0 THEN 1 ELSE Min2(2, NS(mk)), o, IF o = 0 THEN BC1 ELSE BC2)
       chim == {Scn("chimera", <<CA(m1, o1), [CA(m2, o2) EXCEPT !.bc = IF o1 = 0 THEN BC2 ELSE BC1]>>, 2, md) :
                   m1 \in {1, 2}, o1 \in {0, 1}, m2 \in {1, 2}, o2 \in {0, 1}, md \in {1, 2}}
               \cup {Scn("chimera-mism", <<[CA(m1, o1) EXCEPT !.fm = {2}], [CA(3 - m1, 1 - o1) EXCEPT !.rm = {7}]>>, 1, 2) :
@@ -157,7 +161,12 @@ Scen(sh) ==
                   m1 \in {1, 2}, m2 \in {1, 2}, o1 \in {0, 1}}
               \cup {Scn("chimera-partial", <<CA(m1, o1), [CA(m2, 1 - o1) EXCEPT !.drop = "F"]>>, 2, 1) :
                   m1 \in {1, 2}, m2 \in {1, 2}, o1 \in {0, 1}}
-  IN  base \cup mism \cup ted1 \cup ted2 \cup part \cup chim
+      \* the priming site of another marker's reverse primer inside the barcode, after that marker's forward
+      \* primer: hits +j +i -j -i, no two consecutive hits make a pair, the scan has to give up at -j
+      intl == {Scn("interleaved", <<[CA(3 - m1, o1) EXCEPT !.drop = "R"],
+                                    [CA(m1, o1) EXCEPT !.bc = BC1 \o RC(Prim[3 - m1].r) \o BC1]>>, 2, md) :
+                  m1 \in {1, 2}, o1 \in {0, 1}, md \in {1, 2}}
+  IN  base \cup mism \cup ted1 \cup ted2 \cup part \cup chim \cup intl
 
 SheetLine == [cls |-> "sheet", amps |-> <<>>, lf |-> <<>>, rf |-> <<>>, mid |-> <<>>]
 
@@ -205,7 +214,7 @@ PlantedOut(sh, a) ==
 Planted(sh, s) ==
   FoldLeft(LAMBDA acc, i : IF Found(sh, s.amps[i]) THEN Append(acc, PlantedOut(sh, s.amps[i])) ELSE acc,
            <<>>, [i \in DOMAIN s.amps |-> i])
-AllPlantable(sh, s) == \A i \in DOMAIN s.amps : Plantable(sh, s.amps[i])
+AllPlantable(sh, s) == s.cls # "interleaved" /\ \A i \in DOMAIN s.amps : Plantable(sh, s.amps[i])
 
 ---------------------------------------------------------------------------
 Sheet == SheetOf(si)
@@ -223,7 +232,8 @@ Next ==
   /\ res' = IF sc.cls = "sheet" THEN <<>>
             ELSE LET S == Read IN
                  [d |-> DemuxRead(Sheet, S), r |-> DemuxRead(Sheet, RC(S)),
-                  ref |-> IF CheckScan THEN DemuxReadRef(Sheet, S) ELSE <<>>]
+                  ref |-> IF CheckScan THEN DemuxReadRef(Sheet, S) ELSE <<>>,
+                  sht |-> IF CheckScan THEN <<DemuxReadShortcut(Sheet, S).outs, DemuxReadShortcut(Sheet, RC(S)).outs>> ELSE <<>>]
 
 
 IsCase == done /\ sc.cls # "sheet"
@@ -239,9 +249,18 @@ ASSUME B!CompIsInvolution
 
 PlantedThm == (Clean /\ AllPlantable(Sheet, sc)) => res.d.outs = Planted(Sheet, sc)
 
+(* interleaved priming sites of two markers delimit no barcode *)
+InterleavedThm == (Clean /\ sc.cls = "interleaved") => res.d.outs = <<>>
+
 SymmetryThm == Clean => res.r.outs = Flip(res.d.outs)
 
 ScanThm == (Clean /\ CheckScan) => (~res.ref.amb /\ res.ref.outs = res.d.outs)
+
+(* searching the partner primer only behind the first direct hit changes the answer only for reads that   *)
+(* carry a priming site besides their amplicons (classes interleaved, cross, partial ...), never for a    *)
+(* read made of complete amplicons                                                                         *)
+ShortcutThm == (Clean /\ CheckScan /\ sc.cls \in {"base", "mism", "tagedit", "chimera", "chimera-mism", "dimer", "nosite"}) =>
+                  (res.sht[1] = res.d.outs /\ res.sht[2] = res.r.outs)
 
 OtherNames(mk, nm) == {mk.smp[i].name : i \in DOMAIN mk.smp} \ {nm}
 SafetyThm == IsCase =>
@@ -284,6 +303,7 @@ CaseJ ==
   [k |-> "case", sheet |-> si, cls |-> sc.cls, read |-> SeqStr(Read), rc |-> SeqStr(RC(Read)),
    amb |-> IF res.d.amb THEN 1 ELSE 0, ambrc |-> IF res.r.amb THEN 1 ELSE 0,
    pl |-> IF AllPlantable(Sheet, sc) THEN 1 ELSE 0,
+   sht |-> IF CheckScan /\ (res.sht[1] # res.d.outs \/ res.sht[2] # res.r.outs) THEN 1 ELSE 0,
    exp |-> OutJ(res.d.outs), exprc |-> OutJ(res.r.outs)]
 
 Export == done => CSVWrite("%1$s", <<ToJson(IF sc.cls = "sheet" THEN SheetJ ELSE CaseJ)>>, IOEnv.VERIF_CASES)
